@@ -210,7 +210,7 @@ func c08Record(rec *stats.Recorder, s string, res c08Result, flaky bool) {
 var c08Alphabet = []string{
 	"a", "$", "$x", "1", "0", ".", "..", "[", "]", "{", "}", "(", ")", ",", ";", ":", ":=", "?",
 	"+", "-", "*", "**", "/", "%", "|", "=", "!", "!=", "<", "<=", ">", ">=", "~", "~>", "^", "&",
-	"\"", "'", "`", "\\", " ", "and", "e", "é", "\xff",
+	"\"", "'", "`", "\\", " ", "and", "e", "é", "\xff", "True", "NULL",
 }
 
 // TestC08_Exhaustive enumerates every string of up to 3 symbols over the
@@ -311,6 +311,7 @@ var c08Soup = []string{
 	"a", "b", "foo", "`a b`", "`", "$", "$x", "$$", "$sum", "$string", "function", "λ", "1", "0", "12", "1.5", "1.", "1e", "1e+", "1E-2", ".5", "e", "E",
 	".", "..", "[", "]", "{", "}", "(", ")", ",", ";", ":", ":=", "?", "+", "-", "*", "**", "/", "%", "|", "=", "!", "!=", "<", "<=", ">", ">=", "~", "~>", "^", "&",
 	"\"", "'", "\\", "\\u", "\\u00", "\\ud83d", "\\ude00", "\\n", "\\x", " ", "\n", "\t", "and", "or", "in", "true", "false", "null",
+	"TRUE", "True", "tRUE", "FALSE", "False", "AND", "And", "OR", "Or", "IN", "In", "NULL", "Null", "FUNCTION", "Function", "/*", "*/", "//", "--", "#",
 	"é", "䑁", "😀", "\xff", "\xc3", "\xe4\x91", "/a/", "/a/i", "/[/", "/(/", "/\\//", "<n>", "<s-:n>", "<a<n>>", "<(ns)?>", "<x+>", "<f<n:n>>",
 }
 
